@@ -876,4 +876,219 @@ theorem evalI_broken (restore : Bool) {b : Nat} (hk : wb.kind b = .formula)
                        ctx := S.cse b :: s.ctx, errs := s.errs + S.pre b }).2.1)
           rw [hx] at hv; cases hv
 
+/-! ### iterative mode: a cell with a read path to a broken cell fails (path invariant) -/
+
+/-- computed in this pass, or on the evaluation stack: the cells the evaluator does not enter again -/
+def InD (s : IState α) (m : Nat) : Prop := s.computed m = true ∨ (s.cells m).wip = true
+
+/-- every cell computed in this pass has read formula precedents that are computed or on the stack
+    (true at the start of a pass, kept by every successful evaluation) -/
+def PassClosed (wb : Workbook) (s : IState α) : Prop :=
+  ∀ m, wb.kind m = .formula → s.computed m = true →
+    ∀ j, j ∈ wb.deps m → wb.kind j = .formula → InD s j
+
+structure OkPost (wb : Workbook) (b : Nat) (s s' : IState α) : Prop where
+  closed : PassClosed wb s'
+  nb : s'.computed b = false
+  wip : ∀ m, (s'.cells m).wip = (s.cells m).wip
+  mono : ∀ m, s.computed m = true → s'.computed m = true
+
+theorem OkPost.inD {b : Nat} {s s' : IState α} (h : OkPost wb b s s') {m : Nat} (hm : InD s m) : InD s' m := by
+  rcases hm with h1 | h1
+  · exact Or.inl (h.mono m h1)
+  · exact Or.inr (by rw [h.wip m]; exact h1)
+
+theorem OkPost.trans {b : Nat} {s s' s'' : IState α} (h1 : OkPost wb b s s') (h2 : OkPost wb b s' s'') :
+    OkPost wb b s s'' :=
+  ⟨h2.closed, h2.nb, fun m => (h2.wip m).trans (h1.wip m), fun m hm => h2.mono m (h1.mono m hm)⟩
+
+theorem evalDepsI_ok {b : Nat} (ev : Nat → IState α → R α × IState α)
+    (h : ∀ j (s' : IState α), PassClosed wb s' → s'.computed b = false → ∀ v, (ev j s').1 = .ok v →
+      OkPost wb b s' (ev j s').2 ∧ (wb.kind j = .formula → InD (ev j s').2 j)) :
+    ∀ (L : List Nat) (s : IState α), PassClosed wb s → s.computed b = false → (evalDepsI ev L s).1 = none →
+      OkPost wb b s (evalDepsI ev L s).2.2 ∧ ∀ j, j ∈ L → wb.kind j = .formula → InD (evalDepsI ev L s).2.2 j := by
+  intro L
+  induction L with
+  | nil => intro s hc hb _; exact ⟨⟨hc, hb, fun _ => rfl, fun _ h => h⟩, fun j hj => by simp at hj⟩
+  | cons a L ih =>
+    intro s hc hb hn
+    cases h1 : (ev a s).1 with
+    | error e => simp [evalDepsI, h1] at hn
+    | ok v =>
+      have p := h a s hc hb v h1
+      simp only [evalDepsI, h1] at hn ⊢
+      have q := ih (ev a s).2 p.1.closed p.1.nb hn
+      refine ⟨p.1.trans q.1, fun j hj hk => ?_⟩
+      rcases List.mem_cons.mp hj with rfl | hj
+      · exact q.1.inD (p.2 hk)
+      · exact q.2 j hj hk
+
+theorem evalI_ok_post (restore : Bool) {b : Nat} (hbr : ∀ env, ∃ x, S.f b env = .error x) :
+    ∀ fuel i (s : IState α), PassClosed wb s → s.computed b = false → ∀ v,
+      (evalI wb S D restore fuel i s).1 = .ok v →
+      OkPost wb b s (evalI wb S D restore fuel i s).2 ∧
+      (wb.kind i = .formula → InD (evalI wb S D restore fuel i s).2 i) := by
+  intro fuel
+  induction fuel with
+  | zero => intro i s _ _ v hv; simp [evalI] at hv
+  | succ fuel ih =>
+    intro i s hc hb v hv
+    have hrefl : OkPost wb b s s := ⟨hc, hb, fun _ => rfl, fun _ h => h⟩
+    cases hk : wb.kind i with
+    | input => simp only [evalI, hk]; exact ⟨hrefl, fun h => by cases h⟩
+    | range => simp only [evalI, hk]; exact ⟨hrefl, fun h => by cases h⟩
+    | formula =>
+      simp only [evalI, hk] at hv ⊢
+      split
+      · rename_i hw; exact ⟨hrefl, fun _ => Or.inr hw⟩
+      · rename_i hw
+        split
+        · rename_i hcp; exact ⟨hrefl, fun _ => Or.inl hcp⟩
+        · rename_i hcp
+          rw [if_neg hw, if_neg hcp] at hv
+          have hwi : (s.cells i).wip = false := by simpa using hw
+          have hc0 : PassClosed wb
+              ({ s with cells := update s.cells i { s.cells i with wip := true, prev := (s.cells i).val },
+                        ctx := S.cse i :: s.ctx, errs := s.errs + S.pre i } : IState α) := by
+            intro m hkm hcm j hj hkj
+            rcases hc m hkm hcm j hj hkj with h1 | h1
+            · exact Or.inl h1
+            · right
+              by_cases hji : j = i
+              · subst hji; simp
+              · simp [update_ne _ _ hji, h1]
+          have dp := evalDepsI_ok (wb := wb) (b := b) (evalI wb S D restore fuel)
+            (fun j s' a1 a2 v' a3 => ih j s' a1 a2 v' a3) (wb.deps i) _ hc0 hb
+          generalize evalDepsI (evalI wb S D restore fuel) (wb.deps i)
+            ({ s with cells := update s.cells i { s.cells i with wip := true, prev := (s.cells i).val },
+                      ctx := S.cse i :: s.ctx, errs := s.errs + S.pre i } : IState α) = r at dp hv ⊢
+          split
+          · rename_i e he; rw [he] at hv; simp at hv
+          · rename_i hr1
+            rw [hr1] at hv
+            have dq := dp hr1
+            split
+            · rename_i x hx; simp only at hv; rw [hx] at hv; simp at hv
+            · rename_i w hw2
+              have hib : i ≠ b := by
+                intro e
+                subst e
+                cases hf : S.fault i (r.2.2.calls i) with
+                | some x => rw [hf] at hw2; cases hw2
+                | none =>
+                  rw [hf] at hw2
+                  obtain ⟨x, hx⟩ := hbr (envOf S.dflt (wb.deps i) r.2.1)
+                  rw [hx] at hw2; cases hw2
+              refine ⟨⟨?_, ?_, fun m => ?_, fun m hm => ?_⟩, fun _ => Or.inl (by simp)⟩
+              · intro m hkm hcm j hj hkj
+                have hjD : InD r.2.2 j := by
+                  by_cases hmi : m = i
+                  · subst hmi; exact dq.2 j hj hkj
+                  · simp only [update_ne _ _ hmi] at hcm
+                    exact dq.1.closed m hkm hcm j hj hkj
+                by_cases hji : j = i
+                · subst hji; left; simp
+                · rcases hjD with h1 | h1
+                  · left; simp [update_ne _ _ hji, h1]
+                  · right; simp [update_ne _ _ hji, h1]
+              · simp only [update_ne _ _ (Ne.symm hib)]; exact dq.1.nb
+              · by_cases hmi : m = i
+                · subst hmi; simp [hwi]
+                · simp only [update_ne _ _ hmi]
+                  rw [dq.1.wip m]; simp [update_ne _ _ hmi]
+              · by_cases hmi : m = i
+                · subst hmi; simp
+                · simp only [update_ne _ _ hmi]; exact dq.1.mono m hm
+
+/-- a read path from `a` to `b` through formula cells none of which is computed in this pass or on the evaluation
+    stack in state `s` (the cells the evaluator really enters) -/
+inductive ReadPath (wb : Workbook) (s : IState α) : Nat → Nat → Prop where
+  | here {b : Nat} : wb.kind b = .formula → ¬ InD s b → ReadPath wb s b b
+  | step {a j b : Nat} : wb.kind a = .formula → ¬ InD s a → j ∈ wb.deps a → ReadPath wb s j b → ReadPath wb s a b
+
+theorem ReadPath.head {s : IState α} {a b : Nat} (h : ReadPath wb s a b) : wb.kind a = .formula ∧ ¬ InD s a := by
+  cases h with
+  | here hk hn => exact ⟨hk, hn⟩
+  | step hk hn _ _ => exact ⟨hk, hn⟩
+
+theorem ReadPath.last {s : IState α} {a b : Nat} (h : ReadPath wb s a b) : wb.kind b = .formula ∧ ¬ InD s b := by
+  induction h with
+  | here hk hn => exact ⟨hk, hn⟩
+  | step _ _ _ _ ih => exact ih
+
+/-- a path through formula cells, whatever the state -/
+inductive FPath (wb : Workbook) : Nat → Nat → Prop where
+  | here {b : Nat} : wb.kind b = .formula → FPath wb b b
+  | step {a j b : Nat} : wb.kind a = .formula → j ∈ wb.deps a → FPath wb j b → FPath wb a b
+
+theorem FPath.readPath {s : IState α} (hs : ∀ m, ¬ InD s m) {a b : Nat} (h : FPath wb a b) : ReadPath wb s a b := by
+  induction h with
+  | here hk => exact .here hk (hs _)
+  | step hk hj _ ih => exact .step hk (hs _) hj ih
+
+/-- in a state left by a successful evaluation, "computed" travels along a read path of the state before it -/
+theorem computed_along {b : Nat} {s s' : IState α} (hp : OkPost wb b s s') {a c : Nat} (h : ReadPath wb s a c) :
+    s'.computed a = true → s'.computed c = true := by
+  induction h with
+  | here _ _ => exact fun h => h
+  | @step a j c hk _ hj hjc ih =>
+    intro hca
+    apply ih
+    rcases hp.closed a hk hca j hj hjc.head.1 with h1 | h1
+    · exact h1
+    · exfalso
+      rw [hp.wip j] at h1
+      exact hjc.head.2 (Or.inr h1)
+
+/-- an exception leaving `evalI` is never the bare assertion (balanced message discipline) -/
+theorem evalI_err_cls (hD : Balanced D) (restore : Bool) (fuel i : Nat) (s : IState α) {e : Fail}
+    (h : (evalI wb S D restore fuel i s).1 = .error e) : e ≠ .assertion := by
+  cases fuel with
+  | zero => simp [evalI] at h; subst h; simp
+  | succ fuel =>
+    cases hk : wb.kind i with
+    | input => simp [evalI, hk] at h
+    | range => simp [evalI, hk] at h
+    | formula =>
+      simp only [evalI, hk] at h
+      split at h
+      · cases h
+      · split at h
+        · cases h
+        · split at h
+          · rename_i e' _
+            simp only [hD.1] at h
+            injection h with h; subst h
+            exact (wrap_cls e').1
+          · split at h
+            · rename_i x _
+              simp only [hD.1] at h
+              injection h with h; subst h
+              exact (mapRaw_cls x).1
+            · cases h
+
+/-- the transitive statement: a cell with a read path to a persistently broken cell fails -/
+theorem evalI_dependant_fails (restore : Bool) {b : Nat} (hbr : ∀ env, ∃ x, S.f b env = .error x)
+    (fuel : Nat) {a : Nat} (s : IState α) (hc : PassClosed wb s) (hp : ReadPath wb s a b) :
+    ∃ e, (evalI wb S D restore fuel a s).1 = .error e := by
+  cases hr : (evalI wb S D restore fuel a s).1 with
+  | error e => exact ⟨e, rfl⟩
+  | ok v =>
+    exfalso
+    have hb : s.computed b = false := by
+      have := hp.last.2
+      cases hcb : s.computed b with
+      | false => rfl
+      | true => exact absurd (Or.inl hcb) this
+    have post := evalI_ok_post (wb := wb) (D := D) restore hbr fuel a s hc hb v hr
+    have ha : (evalI wb S D restore fuel a s).2.computed a = true := by
+      rcases post.2 hp.head.1 with h1 | h1
+      · exact h1
+      · exfalso
+        rw [post.1.wip a] at h1
+        exact hp.head.2 (Or.inr h1)
+    have := computed_along post.1 hp ha
+    rw [post.1.nb] at this
+    cases this
+
 end Pycel.Failure
